@@ -56,6 +56,9 @@ def _replay(idx, h):
     ch, key = cred("rsa")
     cch, ckey = cred("c_rsa")
     auth = bool(h.get("auth"))
+    # every fourth session-ID history is an SRP one (user name and password instead of certificates): the consistency
+    # rules of a resumption offer are the same
+    use_srp = kind == "id" and vers >= (3, 1) and idx % 4 == 3 and not auth
     nconnect = 0
     keys = {1: bytearray(b"\x01" * 32), 2: bytearray(b"\x02" * 32), 3: bytearray(b"\x03" * 32)}
     srv = {"keys": [keys[1]], "gen": 1, "cache": SessionCache(maxEntries=50, maxAge=LIFETIME)}
@@ -67,6 +70,10 @@ def _replay(idx, h):
     for ei, ev in enumerate(h["hist"]):
         e, arg, pred = ev["e"], ev["arg"], ev["pred"]
         if e == "connect":
+            if use_srp and arg == "verRaised":
+                # SRP does not exist in TLS 1.3: this variant says nothing about an SRP deployment
+                steps.append({"e": "n/a", "arg": "verRaised on an SRP history"})
+                break
             if connected:
                 p.reconnect()
             connected = True
@@ -130,10 +137,15 @@ def _replay(idx, h):
             if session is not None:
                 ckw["session"] = session
             rec = Puppet(p.s, p.ssock, plan=None)
-            st, co, so = p.handshake(ckw=ckw, skw=skw)
+            if use_srp:
+                from ..endpoints import shared_srp_db
+                ckw.update(username=bytearray(b"alice"), password=bytearray(b"password"))
+                skw["verifierDB"] = shared_srp_db()
+            st, co, so = p.handshake(ckw=ckw, skw=skw, kind="srp" if use_srp else "cert")
             rec.stop()
             ok = co.ok and so.ok
-            server_sent_cert = any(t in ("CERT", "CCERT") for t in rec.sent)
+            # (a full handshake shows a Certificate - TLS 1.3, certificate suites - or at least a ServerHelloDone)
+            server_sent_cert = any(t in ("CERT", "CCERT", "SHD") for t in rec.sent)
             resumed_wire = ok and not server_sent_cert
             obs = {"ok": ok, "c": co.describe(), "s": so.describe(), "resumed_wire": resumed_wire,
                    "c_resumed": bool(p.c.resumed) if ok else None, "s_resumed": bool(p.s.resumed) if ok else None}
